@@ -6,7 +6,7 @@ From Coq Require Import NArith ZArith List Bool.
 From Verif Require Import Num ReactionText Units UnitText Schemas Dict.
 Import ListNotations.
 
-Inductive jv := JStr (s : str) | JBool (b : bool) | JNull | JObj (d : list (str * jv)) | JArr (l : list jv).
+Inductive jv := JStr (s : str) | JBool (b : bool) | JNull | JObj (d : list (str * jv)) | JArr (l : list jv) | JInt (z : Z).
 
 (* ---- units system ---- *)
 Definition write_usys (wr : schema -> list (option jv) -> list (str * jv)) (u : usys) : jv :=
@@ -206,6 +206,67 @@ Section WithFloat.
         end
     | _ => Err
     end.
+  (* ---- grid space: rdgridspace_to_dict / rdgridspace_from_dict + the RDGridSpace constructor ---- *)
+  Record grid_obj := { go_w : Z; go_h : Z; go_d : Z; go_env : list Z; go_vol : qty; go_per : bool * bool * bool; go_units : usys }.
+
+  Definition k_grid : str := [103; 114; 105; 100]%N.
+  Definition k_reflecting : str := [114; 101; 102; 108; 101; 99; 116; 105; 110; 103]%N.
+  Definition k_periodical : str := [112; 101; 114; 105; 111; 100; 105; 99; 97; 108]%N.
+  Definition k_x : str := [120%N].  Definition k_y : str := [121%N].  Definition k_z : str := [122%N].
+  Definition bc_text (b : bool) : jv := JStr (if b then k_periodical else k_reflecting).
+  Definition dimVolume : dim := {| dS := 3; dT := 0; dQ := 0 |}.
+
+  Definition write_grid (g : grid_obj) : jv :=
+    let '(bx, by_, bz) := go_per g in
+    JObj (wr schema_grid [Some (JStr k_grid); Some (JInt (go_w g)); Some (JInt (go_h g)); Some (JInt (go_d g));
+                         Some (JArr (map JInt (go_env g))); Some (JStr (print_qty (go_vol g)));
+                         Some (JObj [(k_x, bc_text bx); (k_y, bc_text by_); (k_z, bc_text bz)]); Some (write_usys wr (go_units g))]).
+
+  Definition read_size (f : option jv) : res Z :=
+    match f with None => Ok 1%Z | Some (JInt z) => if (0 <? z)%Z then Ok z else Err | Some _ => Err end.
+
+  (* set_boundary_conditions: every axis reflecting, then the given entries in order *)
+  Fixpoint read_bc (m : list (str * jv)) (acc : bool * bool * bool) : res (bool * bool * bool) :=
+    match m with
+    | [] => Ok acc
+    | (a, JStr c) :: rest =>
+        let '(bx, by_, bz) := acc in
+        match (if str_eqb c k_reflecting then Some false else if str_eqb c k_periodical then Some true else None) with
+        | Some b => if str_eqb a k_x then read_bc rest (b, by_, bz) else if str_eqb a k_y then read_bc rest (bx, b, bz)
+                    else if str_eqb a k_z then read_bc rest (bx, by_, b) else Err
+        | None => Err
+        end
+    | _ :: _ => Err
+    end.
+
+  Variable one : F.      (* the text of the default cell volume, 1 *)
+
+  Definition read_grid (parent : usys) (v : jv) : res grid_obj :=
+    match v with
+    | JObj dct =>
+        match read_fields jv schema_grid dct with
+        | Ok [_; fw; fh; fd; fenv; fvol; fbc; funits] =>
+            match read_units_field parent funits, read_size fw, read_size fh, read_size fd with
+            | Ok u, Ok w, Ok h, Ok d =>
+                let size := (w * h * d)%Z in
+                match (match fenv with
+                       | None => Ok (repeat 0%Z (Z.to_nat size))
+                       | Some (JInt e) => Ok (repeat e (Z.to_nat size))
+                       | Some (JArr l) => match read_list (fun x => match x with JInt e => Ok e | _ => Err end) l with
+                                          | Ok es => if (Z.of_nat (length es) =? size)%Z then Ok es else Err
+                                          | Err => Err end
+                       | Some _ => Err end),
+                      (match fvol with None => Ok (one, (u, dimVolume)) | Some (JStr t) => read_qty dimVolume t | Some _ => Err end),
+                      (match fbc with None => Ok (false, false, false) | Some (JObj m) => read_bc m (false, false, false) | Some _ => Err end) with
+                | Ok env, Ok vol, Ok per => Ok {| go_w := w; go_h := h; go_d := d; go_env := env; go_vol := vol; go_per := per; go_units := u |}
+                | _, _, _ => Err
+                end
+            | _, _, _, _ => Err
+            end
+        | _ => Err
+        end
+    | _ => Err
+    end.
 End WithFloat.
 
 (* ---- executable comparison of JSON values, for the correspondence ---- *)
@@ -215,6 +276,7 @@ Fixpoint jv_eqb (a b : jv) : bool :=
   | JStr s, JStr t => str_eqb s t
   | JBool x, JBool y => Bool.eqb x y
   | JNull, JNull => true
+  | JInt x, JInt y => Z.eqb x y
   | JArr l, JArr m =>
       (fix go (l m : list jv) : bool :=
          match l, m with
